@@ -582,10 +582,10 @@ def matrix(depth: str) -> List[dict]:
              "full": "unicode", "jsonl": "crlf"}
     out = []
     if depth == "quick":
-        targets = TARGETS
+        targets = TARGETS[:6]
         classes = [("absent", "small", 0o644), ("small", "big", 0o600), ("big", "small", 0o444)]
     else:
-        targets = TARGETS
+        targets = TARGETS[:6]
         classes = [(o, n, p) for o in ("absent", "small", "big") for n in ("small", "big") for p in (0o644,)] + \
                   [("small", "small", 0o600), ("big", "big", 0o444), ("small", "empty", 0o664), ("empty", "small", 0o640)]
     for ti, t in enumerate(targets):
